@@ -139,22 +139,22 @@ def exI : IState :=
     staticNs := [("xs", "http://www.w3.org/2001/XMLSchema"), ("xsi", "http://www.w3.org/2001/XMLSchema-instance"), ("wsdlsoap11", "http://schemas.xmlsoap.org/wsdl/soap/"), ("wsdl", "http://schemas.xmlsoap.org/wsdl/")],
     classes := [
       ⟨"<class 'spyne.model.primitive.string.Unicode'>", "http://www.w3.org/2001/XMLSchema", "string", .builtin, none, [], none, .unset, none, [], false, false⟩,
-      ⟨"<class 'c07app.H'>", "ns.h", "H", .complex, none, [⟨"tok", none, 0, false, 0, none, (some "0"), none, true⟩], none, .unset, none, [], false, false⟩,
+      ⟨"<class 'c07app.H'>", "ns.h", "H", .complex, none, [⟨"tok", none, 0, false, false, 0, none, (some "0"), none, true⟩], none, .unset, none, [], false, false⟩,
       ⟨"<class 'c07app.Oops'>", "tns.main", "Oops", .complex, none, [], none, .unset, none, [], false, false⟩,
       ⟨"<class 'spyne.model.primitive.string.Unicode'>", "ns.a", "A_xType", .simple, (some 0), [], none, .unset, none, [], false, false⟩,
       ⟨"<class 'spyne.model.primitive.number.Integer'>", "http://www.w3.org/2001/XMLSchema", "integer", .builtin, none, [], none, .unset, none, [], false, false⟩,
       ⟨"<class 'spyne.model.complex.XmlAttribute'>", "tns.main", "XmlAttribute", .builtin, none, [], none, .unset, none, [], false, false⟩,
-      ⟨"<class 'c07app.A'>", "ns.a", "A", .complex, none, [⟨"x", none, 3, false, 0, none, (some "0"), none, true⟩, ⟨"n", none, 5, true, 4, none, (some "0"), none, true⟩], none, .unset, none, [], false, false⟩,
-      ⟨"<class 'c07app.A'>", "ns.a", "A", .complex, none, [⟨"x", none, 3, false, 0, none, (some "0"), none, true⟩, ⟨"n", none, 5, true, 4, none, (some "0"), none, true⟩], none, .unset, none, [], false, false⟩,
-      ⟨"<class 'spyne.model.complex.Array'>", "ns.a", "AArray", .complex, none, [⟨"A", none, 7, false, 0, none, (some "0"), (some "unbounded"), true⟩], none, .unset, none, [], false, false⟩,
-      ⟨"<class 'c07app.B'>", "ns.b", "B", .complex, (some 6), [⟨"l", none, 8, false, 0, none, (some "0"), none, true⟩], none, .unset, none, [], false, false⟩,
-      ⟨"<class 'spyne.model.complex.f'>", "tns.main", "f", .complex, none, [⟨"b", none, 9, false, 0, none, (some "0"), none, true⟩], none, .unset, none, [], false, false⟩,
-      ⟨"<class 'spyne.model.complex.fResponse'>", "tns.main", "fResponse", .complex, none, [⟨"fResult", none, 6, false, 0, none, (some "0"), none, true⟩], none, .unset, none, [], false, false⟩,
+      ⟨"<class 'c07app.A'>", "ns.a", "A", .complex, none, [⟨"x", none, 3, false, false, 0, none, (some "0"), none, true⟩, ⟨"n", none, 5, true, false, 4, none, (some "0"), none, true⟩], none, .unset, none, [], false, false⟩,
+      ⟨"<class 'c07app.A'>", "ns.a", "A", .complex, none, [⟨"x", none, 3, false, false, 0, none, (some "0"), none, true⟩, ⟨"n", none, 5, true, false, 4, none, (some "0"), none, true⟩], none, .unset, none, [], false, false⟩,
+      ⟨"<class 'spyne.model.complex.Array'>", "ns.a", "AArray", .complex, none, [⟨"A", none, 7, false, false, 0, none, (some "0"), (some "unbounded"), true⟩], none, .unset, none, [], false, false⟩,
+      ⟨"<class 'c07app.B'>", "ns.b", "B", .complex, (some 6), [⟨"l", none, 8, false, false, 0, none, (some "0"), none, true⟩], none, .unset, none, [], false, false⟩,
+      ⟨"<class 'spyne.model.complex.f'>", "tns.main", "f", .complex, none, [⟨"b", none, 9, false, false, 0, none, (some "0"), none, true⟩], none, .unset, none, [], false, false⟩,
+      ⟨"<class 'spyne.model.complex.fResponse'>", "tns.main", "fResponse", .complex, none, [⟨"fResult", none, 6, false, false, 0, none, (some "0"), none, true⟩], none, .unset, none, [], false, false⟩,
       ⟨"<class 'spyne.model.primitive.string.Unicode'>", "http://www.w3.org/2001/XMLSchema", "string", .builtin, none, [], (some "g"), .dflt, none, [], false, false⟩,
       ⟨"<class 'spyne.model.primitive.string.Unicode'>", "http://www.w3.org/2001/XMLSchema", "string", .builtin, none, [], (some "gResponse"), .dflt, none, [], false, false⟩],
     deps := [(1, [0]), (0, []), (2, []), (10, [9]), (9, [8, 6]), (6, [5, 3]), (3, [0]), (5, []), (4, []), (8, [7]), (11, [6])],
     imports := [("tns.main", ["ns.a", "ns.b", "ns.h"]), ("ns.h", []), ("ns.b", ["ns.a"]), ("ns.a", ["tns.main"])],
-    services := [⟨"S", ["P1", "P2"], [⟨"f", "f", 10, 11, (some [1]), none, [2], (some "P1")⟩, ⟨"g", "g", 12, 13, (some [1]), none, [], (some "P2")⟩]⟩],
+    services := [⟨"S", ["P1", "P2"], [⟨"f", "f", 10, 11, (some [1]), none, [2], (some "P1"), none⟩, ⟨"g", "g", 12, 13, (some [1]), none, [], (some "P2"), none⟩]⟩],
     transport := "http://schemas.xmlsoap.org/soap/http", inSoap12 := false, outSoap12 := false }
 
 /-- with `<xs:import>` written in set order two processes disagree (D19) -/
@@ -170,14 +170,14 @@ def exT : IState :=
     classes := [
       ⟨"<class 'spyne.model.primitive.string.Unicode'>", "http://www.w3.org/2001/XMLSchema", "string", .builtin, none, [], none, .unset, none, [], false, false⟩,
       ⟨"<class 'spyne.model.primitive.string.Unicode'>", "ns.p", "P_xType", .simple, (some 0), [], none, .unset, none, [], false, false⟩,
-      ⟨"<class 'c07app.P'>", "ns.p", "P", .complex, none, [⟨"x", none, 1, false, 0, none, (some "0"), none, true⟩], none, .unset, none, [], false, false⟩,
+      ⟨"<class 'c07app.P'>", "ns.p", "P", .complex, none, [⟨"x", none, 1, false, false, 0, none, (some "0"), none, true⟩], none, .unset, none, [], false, false⟩,
       ⟨"<class 'spyne.model.primitive.string.Unicode'>", "ns.q", "Q_xType", .simple, (some 0), [], none, .unset, none, [], false, false⟩,
-      ⟨"<class 'c07app.Q'>", "ns.q", "Q", .complex, none, [⟨"x", none, 3, false, 0, none, (some "0"), none, true⟩], none, .unset, none, [], false, false⟩,
-      ⟨"<class 'spyne.model.complex.f'>", "tns.main", "f", .complex, none, [⟨"p", none, 2, false, 0, none, (some "0"), none, true⟩, ⟨"q", none, 4, false, 0, none, (some "0"), none, true⟩], none, .unset, none, [], false, false⟩,
-      ⟨"<class 'spyne.model.complex.fResponse'>", "tns.main", "fResponse", .complex, none, [⟨"fResult", none, 0, false, 0, none, (some "0"), none, true⟩], none, .unset, none, [], false, false⟩],
+      ⟨"<class 'c07app.Q'>", "ns.q", "Q", .complex, none, [⟨"x", none, 3, false, false, 0, none, (some "0"), none, true⟩], none, .unset, none, [], false, false⟩,
+      ⟨"<class 'spyne.model.complex.f'>", "tns.main", "f", .complex, none, [⟨"p", none, 2, false, false, 0, none, (some "0"), none, true⟩, ⟨"q", none, 4, false, false, 0, none, (some "0"), none, true⟩], none, .unset, none, [], false, false⟩,
+      ⟨"<class 'spyne.model.complex.fResponse'>", "tns.main", "fResponse", .complex, none, [⟨"fResult", none, 0, false, false, 0, none, (some "0"), none, true⟩], none, .unset, none, [], false, false⟩],
     deps := [(5, [2, 4]), (2, [1]), (1, [0]), (0, []), (4, [3]), (3, [0]), (6, [0])],
     imports := [("tns.main", ["ns.p", "ns.q"]), ("ns.p", []), ("ns.q", [])],
-    services := [⟨"S", [], [⟨"f", "f", 5, 6, none, none, [], none⟩]⟩],
+    services := [⟨"S", [], [⟨"f", "f", 5, 6, none, none, [], none, none⟩]⟩],
     transport := "http://schemas.xmlsoap.org/soap/http", inSoap12 := false, outSoap12 := false }
 
 /-- with toposort ties broken by a set of class objects two processes disagree on prefixes and schema order -/
@@ -207,8 +207,8 @@ theorem fault_namespace_witness :
 
 /-- `exI` split into two services (one port type each) that share the header class `H` -/
 def exM : IState :=
-  { exI with services := [⟨"S", ["P1"], [⟨"f", "f", 10, 11, (some [1]), none, [2], (some "P1")⟩]⟩,
-                          ⟨"S2", ["P2"], [⟨"g", "g", 12, 13, (some [1]), none, [], (some "P2")⟩]⟩] }
+  { exI with services := [⟨"S", ["P1"], [⟨"f", "f", 10, 11, (some [1]), none, [2], (some "P1"), none⟩]⟩,
+                          ⟨"S2", ["P2"], [⟨"g", "g", 12, 13, (some [1]), none, [], (some "P2"), none⟩]⟩] }
 
 /-- with a fresh set of emitted message names per service, a shared header yields two `wsdl:message name="H"` -/
 theorem message_dedup_witness :
@@ -236,6 +236,32 @@ theorem handler_lookup_witness :
     (match build { facts07 with handlerLookup := .firstBase } Enum.id exX "u" with
       | .ok d => d.closed | _ => true) = false := by decide +kernel
 
+/-- a class with text content (`XmlData`) and a required attribute of an enumeration type; a documented method -/
+def exD : IState :=
+  { tns := "tns.main", name := "App",
+    pins := [],
+    staticNs := [("xs", "http://www.w3.org/2001/XMLSchema"), ("wsdl", "http://schemas.xmlsoap.org/wsdl/")],
+    classes := [
+      ⟨"<class 'spyne.model.primitive.number.Decimal'>", "http://www.w3.org/2001/XMLSchema", "decimal", .builtin, none, [], none, .unset, none, [], false, false⟩,
+      ⟨"<class 'spyne.model.complex.XmlData'>", "http://www.w3.org/2001/XMLSchema", "decimal", .builtin, none, [], none, .unset, none, [], false, false⟩,
+      ⟨"<class 'spyne.model.enum.Enum.<locals>.EnumType'>", "tns.main", "Unit", .enum, none, [], none, .unset, none, ["kg", "lb"], false, false⟩,
+      ⟨"<class 'spyne.model.complex.XmlAttribute'>", "tns.main", "XmlAttribute", .builtin, none, [], none, .unset, none, [], false, false⟩,
+      ⟨"<class 'c07app.Weight'>", "ns.a", "Weight", .complex, none, [⟨"val", none, 1, false, true, 0, none, (some "0"), none, true⟩, ⟨"unit", none, 3, true, false, 2, (some "required"), (some "0"), none, true⟩], none, .unset, none, [], false, false⟩,
+      ⟨"<class 'spyne.model.complex.weigh'>", "tns.main", "weigh", .complex, none, [⟨"w", none, 4, false, false, 0, none, (some "0"), none, true⟩], none, .unset, none, [], false, false⟩,
+      ⟨"<class 'spyne.model.complex.weighResponse'>", "tns.main", "weighResponse", .complex, none, [⟨"weighResult", none, 4, false, false, 0, none, (some "0"), none, true⟩], none, .unset, none, [], false, false⟩],
+    deps := [(5, [4]), (4, [1, 3]), (1, []), (3, []), (2, []), (6, [4])],
+    imports := [("tns.main", ["ns.a"]), ("ns.a", ["tns.main"])],
+    services := [⟨"S", [], [⟨"weigh", "weigh", 5, 6, none, none, [], none, (some "Weighs.")⟩]⟩],
+    transport := "http://schemas.xmlsoap.org/soap/http", inSoap12 := false, outSoap12 := false }
+
+/-- without the `document.add(xtba_type.type)` / base reference of an XmlData member being closed over, the
+    `xs:simpleContent` base of `Weight` and the attribute's enumeration type both have to resolve: they do -/
+theorem xmldata_example_closed :
+    (match build facts07 Enum.id exD "u" with
+      | .ok d => d.closed && d.wellDefined && (d.typeRefs.any (fun q => q == ⟨nsXsd, "decimal"⟩)) &&
+                 (d.portTypes.flatMap (·.ops)).all (fun o => o.doc == some "Weighs.")
+      | _ => false) = true := by decide +kernel
+
 /-! ### non-vacuity: the hypotheses hold for a concrete application (2 port types, header in a foreign namespace,
     inheritance across namespaces, array, attribute, restricted simple type, fault, bare method) -/
 
@@ -255,6 +281,7 @@ example : (populated exX).wfCore = true ∧ (populated exX).wfOps = true := by d
 example : (match build facts07 Enum.id exX "u" with
     | .ok d => d.closed && d.wellDefined && d.nsdecl.lookup (.gen 2) == some "ns.a" && d.nsdecl.lookup (.gen 0) == some "ns.b"
     | _ => false) = true := by decide +kernel
+example : (populated exD).wfCore = true ∧ (populated exD).wfOps = true := by decide +kernel
 example : Enum.rev.Valid := Enum.rev_valid
 example : exI.deps ≠ [] := by decide
 
